@@ -2,6 +2,7 @@ package main
 
 import (
 	"fmt"
+	"github.com/Vedant9500/WTF/internal/nlp"
 	"math"
 	"math/rand"
 	"reflect"
@@ -137,9 +138,90 @@ func c05NLPSweep(ctx *Ctx, r *rand.Rand) {
 	})
 }
 
+// c05BoostTwins: enhanced requests that differ only in a boost for a term the enhancement ADDS (a word that is not in the
+// request as typed), asked one after the other through one caching wrapper. The database names, as commands of its own, the
+// words the query analysis knows (tool names among them), so that such a boost moves a result.
+func c05BoostTwins(ctx *Ctx, r *rand.Rand) {
+	d := ctx.Dict()
+	if len(d.NLPWords) < 10 {
+		return
+	}
+	cmds := vlib.GenCommands(r, vlib.DBSpec{N: 20, Pipelines: true})
+	for i, w := range d.NLPWords {
+		if i%3 == ctx.Shard%3 && vlib.IsASCII(w) {
+			cmds = append(cmds, vlib.Cmd{Command: w + " --input file", Description: "run " + w + " on a file", Keywords: []string{w}})
+		}
+	}
+	db := vlib.MustLoad(vlib.StripCaches(cmds))
+	qp := nlp.NewQueryProcessor()
+	known := map[string]bool{}
+	for _, w := range vlib.DBWords(db.Commands) {
+		known[w] = true
+	}
+	var phrases []string
+	phrases = append(phrases, d.NLPPhrases...)
+	for i := 0; i < 400; i++ {
+		phrases = append(phrases, d.NLPWords[r.Intn(len(d.NLPWords))]+" "+d.NLPWords[r.Intn(len(d.NLPWords))])
+	}
+	n := 0
+	for i, q := range phrases {
+		if i%ctx.NShards != ctx.Shard {
+			continue
+		}
+		typed := map[string]bool{}
+		for _, t := range vlib.Tokenize(q) {
+			typed[t] = true
+		}
+		var added []string
+		for _, t := range qp.ProcessQuery(q).GetEnhancedKeywords() {
+			if !typed[t] && known[t] && !strings.Contains(strings.ToLower(q), t) {
+				added = append(added, t)
+			}
+		}
+		if len(added) == 0 {
+			continue
+		}
+		if len(added) > 4 {
+			added = added[:4]
+		}
+		cdb := database.NewCachedDatabase(db)
+		var answers []vlib.Ranked
+		for k := 0; k <= len(added); k++ {
+			o := database.SearchOptions{Limit: 6, UseNLP: true, AllPlatforms: true}
+			if k < len(added) {
+				o.ContextBoosts = map[string]float64{added[k]: 6}
+			}
+			cs := map[string]interface{}{"db": "analysis words as commands", "n": len(db.Commands), "entry": "SearchWithOptionsAndCache", "query": q, "opts": vlib.OptsJ(o),
+				"class": "boost on a term the enhancement adds", "terms_added_by_the_enhancement": added}
+			ctx.R.Begin(cs)
+			ctx.R.Eval(1)
+			ctx.R.Guard("C05", "SearchWithOptionsAndCache", cs, func() {
+				got := vlib.Canon(db.Commands, cdb.SearchWithOptionsAndCache(q, o))
+				refs, stable := vlib.StableRef(3, func() vlib.Ranked { return vlib.Canon(db.Commands, db.SearchUniversal(q, o)) })
+				answers = append(answers, refs[0])
+				if v, why := vlib.CompareToRef(refs, stable, got, o.Limit); v == "violated" {
+					ctx.R.Violate(vlib.Violation{Property: "C05", Clause: "cached-differs-from-fresh", Path: "SearchWithOptionsAndCache/boost-on-an-added-term",
+						Detail:  fmt.Sprintf("the answer for %s with boosts %v through the cache (after the same request with a boost for another term the enhancement adds) differs from an uncached search: %s", vlib.Q(q), o.ContextBoosts, why),
+						Witness: map[string]interface{}{"case": cs, "got": got, "fresh": refs[0]}})
+				}
+			})
+			n++
+		}
+		for k := 1; k < len(answers); k++ {
+			if !vlib.Exact(answers[0], answers[k]) {
+				ctx.R.Path("boost-twin-sequences-with-different-answers", 1)
+				ctx.R.Nontriv("boost-twins", q)
+				break
+			}
+		}
+	}
+	ctx.R.Path("boost-twin-requests", int64(n))
+}
+
 func engineCacheHist(ctx *Ctx) {
 	r := vlib.NewRand(ctx.Seed, ctx.Shard, "cachehist")
 	c05NLPSweep(ctx, r)
+	c05BoostTwins(ctx, vlib.NewRand(ctx.Seed, ctx.Shard, "boost-twins"))
 	nHist := ctx.N(960, 38000)
 	for h := 0; h < nHist; h++ {
 		sp := vlib.DBSpec{N: []int{8, 20, 45, 90}[h%4], TieHeavy: h%3 == 0, Platforms: 2, Pipelines: true, PseudoCmd: h%2 == 0}
